@@ -2,12 +2,18 @@
 
 Decided: ENV-FIELDS, UPGRADE-CHAIN, MUTATORS, AMBIENT, NULLABLE-ROUNDTRIP,
 LOAD-ONLY, CTOR-BYPASS (from_json via __new__ assigns the same attributes as
-__init__).
+__init__). Writer/reader agreement is decided on *record shapes* computed by
+the flow engine (the dict handed to json.dump, however it is built; the keys
+the loader reads from the parsed file, through whatever local aliases), not
+on the text of save()/load().
 Not decided: equality of objects before save / after load over all values.
 """
 import ast
+import re
 
 from ..consteval import UNKNOWN, const_eval
+from ..facts import (Facts, direct, has, has_call, has_const, param_of,
+                     paths)
 from ..index import AnalysisError, unparse, walk_no_nested
 from .. import query as Q
 
@@ -16,190 +22,183 @@ DICT_MUTATORS = ['__setitem__', '__delitem__', 'clear', 'pop', 'popitem',
                  'setdefault', 'update', '__ior__']
 
 
-def _self_attrs_assigned(fn, recv='self'):
-    out = set()
-    for n in ast.walk(fn):
-        if isinstance(n, (ast.Assign, ast.AugAssign, ast.AnnAssign)):
-            tgts = n.targets if isinstance(n, ast.Assign) else [n.target]
-            for t in tgts:
-                for s in ast.walk(t):
-                    if isinstance(s, ast.Attribute) and isinstance(
-                            s.value, ast.Name) and s.value.id == recv and \
-                            isinstance(s.ctx, ast.Store):
-                        out.add(s.attr)
-                    elif isinstance(s, ast.Subscript) and isinstance(
-                            s.value, ast.Attribute) and isinstance(
-                                s.value.value, ast.Name) and \
-                            s.value.value.id == recv:
-                        out.add(s.value.attr)
-        elif isinstance(n, ast.Call) and unparse(n.func) == 'setattr' and \
-                len(n.args) == 3 and isinstance(n.args[0], ast.Name) and \
-                n.args[0].id == recv:
-            # setattr(env, i, ...) inside `for i in (consts)`
-            lp = n
-            while lp is not None and not isinstance(lp, ast.For):
-                lp = getattr(lp, '_parent', None)
-            if lp is not None and isinstance(lp.iter, (ast.Tuple, ast.List)):
-                for e in lp.iter.elts:
-                    if isinstance(e, ast.Constant):
-                        out.add(e.value)
+def _facts(ctx):
+    f = getattr(ctx, '_facts', None)
+    if f is None:
+        f = ctx._facts = Facts(ctx.repo)
+    return f
+
+
+def _attrs_stored(F, fn, on):
+    """Attribute names stored (assignment / setattr) on the object selected
+    by `on(target atom)` -> {attr: value atoms}."""
+    out = {}
+    for t, v, n in F.stores(fn):
+        for a in t:
+            if a.startswith(('via:', 'const:', 'key:', 'alloc:')):
+                continue
+            m = re.match(r'^(.*)\.([A-Za-z_][A-Za-z_0-9]*)(\[.*\])?$', a)
+            if m and on(m.group(1)):
+                out.setdefault(m.group(2), set()).update(v)
     return out
 
 
-def _data_keys_read(fn, after_line=0, var='data'):
-    """Constant keys k used as data[k] (Load) after a given line, expanding
-    `for i in (consts): ... data[i]`."""
+def _dumped_record(F, fn):
+    """Record handed to json.dump in fn (or helpers): {key: ...}."""
+    for e in F.effects(fn, lambda e: e.name == 'dump', depth=1):
+        rec = F.flow.record(e.call.args[0], e.fn, e.bind) if e.call.args \
+            else None
+        if rec is not None:
+            return rec
+    return None
+
+
+def _keys_read(F, fn, under):
+    """Constant keys k read as X[k] where X's access paths satisfy
+    under(atoms of X)."""
     out = set()
-    for n in ast.walk(fn):
-        if isinstance(n, ast.Subscript) and isinstance(
-                n.value, ast.Name) and n.value.id == var and \
-                isinstance(n.ctx, ast.Load) and n.lineno > after_line:
-            k = n.slice
-            if isinstance(k, ast.Constant):
-                out.add(k.value)
-            elif isinstance(k, ast.Name):
-                lp = n
-                while lp is not None and not (isinstance(
-                        lp, ast.For) and unparse(lp.target) == k.id):
-                    lp = getattr(lp, '_parent', None)
-                if lp is not None and isinstance(lp.iter,
-                                                 (ast.Tuple, ast.List)):
-                    for e in lp.iter.elts:
-                        if isinstance(e, ast.Constant):
-                            out.add(e.value)
+    for g in F.reach(fn, 1):
+        if g.module is not fn.module:
+            continue
+        for n in ast.walk(g.node):
+            if isinstance(n, ast.Subscript) and isinstance(n.ctx, ast.Load):
+                ks = F.flow.const_keys(n.slice, g)
+                if ks is None:
+                    continue
+                if under(F.atoms(n.value, g)):
+                    out |= {k for k in ks if isinstance(k, (str, int))}
     return out
 
 
 def env_fields(ctx):
     R = 'ENV-FIELDS'
-    ctx.rule(R, 'the keys written by Environment.save = the keys read by '
-             'Environment.load after the upgrade chain = the attributes '
-             'assigned by __init__ and finalize; same for Toolchain, '
-             'EnvVarDict, RegenerateFiles, FindCacheFile, BasePath')
+    ctx.rule(R, 'the keys of the record Environment.save dumps = the keys '
+             'Environment.load restores into attributes of the same name = '
+             'the attributes assigned by __init__ and finalize; each saved '
+             'value derives from the attribute of its name; same writer/'
+             'reader agreement for Toolchain, EnvVarDict, RegenerateFiles, '
+             'FileFilter, FindCacheFile, BasePath')
     repo = ctx.repo
-    save = repo.method(ENV + 'Environment', 'save')
-    load = repo.method(ENV + 'Environment', 'load')
-    init = repo.method(ENV + 'Environment', '__init__')
-    fin = repo.method(ENV + 'Environment', 'finalize')
-    # save keys: the dict under 'data'
-    data_dict = None
-    for n in ast.walk(save.node):
-        if isinstance(n, ast.Dict):
-            for k, v in zip(n.keys, n.values):
-                if isinstance(k, ast.Constant) and k.value == 'data' and \
-                        isinstance(v, ast.Dict):
-                    data_dict = v
-    Q.require(data_dict is not None, 'Environment.save: data dict not found')
-    saved = {k.value: v for k, v in zip(data_dict.keys, data_dict.values)
-             if isinstance(k, ast.Constant)}
-    # load: keys read after the last upgrade step
-    ups = [n for n in walk_no_nested(load.node) if isinstance(n, ast.If) and
-           unparse(n.test).startswith('version < ')]
-    Q.require(ups, 'Environment.load: upgrade chain not found')
-    last_line = max(getattr(n, 'end_lineno', n.lineno) for n in ups)
-    loaded = _data_keys_read(load.node, last_line)
-    attrs = (_self_attrs_assigned(init.node) |
-             _self_attrs_assigned(fin.node)) - set()
+    F = _facts(ctx)
+    fl = F.flow
+    save = F.fn(ENV + 'Environment.save')
+    load = F.fn(ENV + 'Environment.load')
+    init = F.fn(ENV + 'Environment.__init__')
+    fin = F.fn(ENV + 'Environment.finalize')
+    top = _dumped_record(F, save)
+    Q.require(top is not None, 'Environment.save: dumped record not found')
+    saved = fl.subrecord(top, 'data')
+    Q.require(saved is not None, 'Environment.save: data record not found')
+    saved.pop('*', None)
+    restored = _attrs_stored(F, load, lambda base: '__new__(' in base)
+    keys_of = {}
+    for attr, v in restored.items():
+        keys_of[attr] = set(re.findall(
+            r"\['data'\]\['([A-Za-z_0-9]+)'\]", ' '.join(v)))
+    attrs = set(_attrs_stored(F, init, lambda b: b == 'self')) | set(
+        _attrs_stored(F, fin, lambda b: b == 'self'))
     attrs = {a for a in attrs if not a.startswith('_')}
-    restored = _self_attrs_assigned(load.node, 'env')
-    ctx.require_min(R, len(saved), 8, 'saved Environment fields')
+    ctx.ob(R, 'Environment|enough-fields', len(saved) >= 8, save.node,
+           'only {} saved fields were recognised'.format(len(saved)))
     ctx.stat('environment_fields', sorted(saved))
-    for k in sorted(set(saved) | loaded | attrs | restored):
+    for k in sorted(set(saved) | set(restored) | attrs):
         ctx.ob(R, 'Environment|' + k,
-               k in saved and k in loaded and k in attrs and k in restored,
-               save.node,
-               'field {!r}: saved={} loaded={} constructed={} restored={} '
-               '-- a configuration choice is lost or invented across '
-               'save/load'.format(k, k in saved, k in loaded, k in attrs,
-                                  k in restored))
-    # each saved value derives from the attribute of the same name
-    for k, v in sorted(saved.items()):
+               k in saved and k in restored and k in keys_of.get(k, ()) and
+               k in attrs, save.node,
+               'field {!r}: saved={} restored={} (from keys {}) '
+               'constructed={} -- a configuration choice is lost or '
+               'invented across save/load'.format(
+                   k, k in saved, k in restored,
+                   sorted(keys_of.get(k, ())), k in attrs))
+    for k in sorted(saved):
         ctx.ob(R, 'Environment.save|{}<-self.{}'.format(k, k),
-               'self.' + k in unparse(v), v,
+               has(fl.rec_atoms(saved, k), 'self', k), save.node,
                'saved field {!r} is not computed from self.{}'.format(k, k))
-    # version written / checked
-    top = [n for n in ast.walk(save.node) if isinstance(n, ast.Dict) and any(
-        isinstance(k, ast.Constant) and k.value == 'version'
-        for k in n.keys)]
-    ok = bool(top) and any(
-        isinstance(k, ast.Constant) and k.value == 'version' and
-        unparse(v) == 'self.version'
-        for k, v in zip(top[0].keys, top[0].values))
-    ctx.ob(R, 'Environment.save|version', ok, save.node,
+    ctx.ob(R, 'Environment.save|version',
+           has(fl.rec_atoms(top, 'version'), 'self', 'version'), save.node,
            'format version is not saved')
-    ok = any(isinstance(n, ast.If) and unparse(n.test) ==
-             'version > cls.version' and any(isinstance(s, ast.Raise)
-                                             for s in n.body)
-             for n in walk_no_nested(load.node))
+    ok = False
+    for n in walk_no_nested(load.node):
+        if isinstance(n, ast.Raise):
+            for op, l, r in F.guard_compares(n, load):
+                if op == 'Gt' and has(l, "['version']") and has(
+                        r, 'version') or op == 'Lt' and has(
+                            r, "['version']") and has(l, 'version'):
+                    ok = True
     ctx.ob(R, 'Environment.load|future-version-rejected', ok, load.node,
            'a file written by a newer format version is not rejected')
-    # same file name
-    ok = 'self.envfile' in unparse(save.node) and 'cls.envfile' in unparse(
-        load.node)
+    ok = any(has(e.all_args(), 'envfile') for e in F.effects(
+        save, lambda e: e.name == 'open', depth=1)) and any(
+        has(e.all_args(), 'envfile') for e in F.effects(
+            load, lambda e: e.name == 'open', depth=1))
     ctx.ob(R, 'Environment|same-file', ok, save.node,
            'save and load use different file names')
 
-    # Toolchain / EnvVarDict / RegenerateFiles: to_json keys == from_json
-    for cls_fq, reader_var in (
-            (ENV + 'Toolchain', 'data'), (ENV + 'EnvVarDict', 'data'),
-            ('bfg9000.builtins.regenerate:RegenerateFiles', 'data'),
-            ('bfg9000.builtins.find:FileFilter', 'data')):
-        tj = repo.method(cls_fq, 'to_json')
-        fj = repo.method(cls_fq, 'from_json')
-        d = [r.value for r in Q.returns(tj.node)
-             if isinstance(r.value, ast.Dict)]
-        Q.require(len(d) == 1, cls_fq + '.to_json: dict return not found')
-        wk = {k.value for k in d[0].keys if isinstance(k, ast.Constant)}
-        rk = _data_keys_read(fj.node, 0, reader_var)
+    # Toolchain / EnvVarDict / RegenerateFiles / FileFilter
+    for cls_fq in (ENV + 'Toolchain', ENV + 'EnvVarDict',
+                   'bfg9000.builtins.regenerate:RegenerateFiles',
+                   'bfg9000.builtins.find:FileFilter'):
+        tj = F.fn(cls_fq + '.to_json')
+        fj = F.fn(cls_fq + '.from_json')
+        wk = set()
+        found = False
+        for r in fl._returns(tj):
+            rec = fl.record(r, tj)
+            if rec is not None:
+                found = True
+                wk |= {k for k in rec if k != '*'}
+        Q.require(found, cls_fq + '.to_json: returned record not found')
+        rk = _keys_read(F, fj, lambda a: param_of(direct(a), 'data'))
         ctx.ob(R, cls_fq.split(':')[1] + '|to_json-keys=from_json-keys',
                wk == rk, tj.node, 'written {} vs read {}'.format(
                    sorted(wk), sorted(rk)))
     # BasePath: 3 elements, indices 0..2
-    tj = repo.method('bfg9000.platforms.basepath:BasePath', 'to_json')
-    fj = repo.method('bfg9000.platforms.basepath:BasePath', 'from_json')
-    r = [x.value for x in Q.returns(tj.node) if isinstance(
-        x.value, (ast.List, ast.Tuple))]
-    n_el = len(r[0].elts) if len(r) == 1 else -1
-    idx = {n.slice.value for n in ast.walk(fj.node) if isinstance(
-        n, ast.Subscript) and unparse(n.value) == 'data' and isinstance(
-            n.slice, ast.Constant)}
+    tj = F.fn('bfg9000.platforms.basepath:BasePath.to_json')
+    fj = F.fn('bfg9000.platforms.basepath:BasePath.from_json')
+    lens = set()
+    for r in fl._returns(tj):
+        q = fl.sequence(r, tj)
+        lens.add(len(q) if q is not None else -1)
+    idx = {k for k in _keys_read(F, fj, lambda a: param_of(direct(a),
+                                                           'data'))
+           if isinstance(k, int)}
     ctx.ob(R, 'BasePath|to_json-arity=from_json-indices',
-           n_el == 3 and idx == {0, 1, 2}, tj.node,
+           lens == {3} and idx == {0, 1, 2}, tj.node,
            'to_json writes {} elements, from_json reads indices {}'.format(
-               n_el, sorted(idx)))
+               sorted(lens), sorted(idx)))
     # FindCacheFile
-    F = 'bfg9000.builtins.find:'
-    sv = repo.method(F + 'FindCacheFile', 'save')
-    ld = repo.method(F + 'FindCacheFile', 'load')
-    wk = set()
-    for n in ast.walk(sv.node):
-        if isinstance(n, ast.Dict):
-            for k, v in zip(n.keys, n.values):
-                if isinstance(k, ast.Constant) and k.value == 'data' and \
-                        isinstance(v, ast.Dict):
-                    wk = {x.value for x in v.keys
-                          if isinstance(x, ast.Constant)}
-    rk = _data_keys_read(ld.node, 0, 'data')
+    FD = 'bfg9000.builtins.find:'
+    sv = F.fn(FD + 'FindCacheFile.save')
+    ld = F.fn(FD + 'FindCacheFile.load')
+    top = _dumped_record(F, sv)
+    wk = set(fl.subrecord(top, 'data') or {}) - {'*'} if top else set()
+    rk = {k for k in _keys_read(F, ld, lambda a: has(a, "['data']"))
+          if isinstance(k, str)}
     ctx.ob(R, 'FindCacheFile|save-keys=load-keys', wk == rk and bool(wk),
            sv.node, 'written {} vs read {}'.format(sorted(wk), sorted(rk)))
 
 
 def upgrade_chain(ctx):
     R = 'UPGRADE-CHAIN'
-    ctx.rule(R, 'the `if version < k` steps of Environment.load are in '
-             'increasing order, contiguous, and end at Environment.version')
+    ctx.rule(R, 'the `version < k` upgrade steps of Environment.load are in '
+             'increasing order, contiguous, and end at Environment.version; '
+             'fields added after the first format are filled in by a step')
     repo = ctx.repo
-    load = repo.method(ENV + 'Environment', 'load')
+    F = _facts(ctx)
+    load = F.fn(ENV + 'Environment.load')
     ci = repo.cls(ENV + 'Environment')
     cur = const_eval(repo, ci.module, ci.attrs['version'])
     ks = []
-    for st in load.node.body:
+    for st in walk_no_nested(load.node):
         if isinstance(st, ast.If) and isinstance(st.test, ast.Compare) and \
-                unparse(st.test.left) == 'version' and isinstance(
-                    st.test.ops[0], ast.Lt):
+                len(st.test.ops) == 1 and isinstance(
+                    st.test.ops[0], ast.Lt) and has(
+                        F.atoms(st.test.left, load), "['version']"):
             k = const_eval(repo, ci.module, st.test.comparators[0])
-            ks.append((k, st))
+            if isinstance(k, int):
+                ks.append((k, st))
     Q.require(len(ks) >= 10, 'upgrade steps not found')
+    ks.sort(key=lambda x: x[1].lineno)
     vals = [k for k, _ in ks]
     ctx.ob(R, 'increasing', vals == sorted(vals), load.node,
            'upgrade steps are not applied in increasing order: {}'.format(
@@ -209,17 +208,14 @@ def upgrade_chain(ctx):
     ctx.ob(R, 'ends-at-current', vals[-1] == cur, load.node,
            'last upgrade step is {} but Environment.version is {}'.format(
                vals[-1], cur))
-    # every key read after the chain that is not in the oldest format must be
-    # introduced by some step (data[k] = ... / data[k] store)
     stored = set()
     for k, st in ks:
         for n in ast.walk(st):
-            if isinstance(n, ast.Subscript) and unparse(n.value) == 'data' \
-                    and isinstance(n.ctx, ast.Store):
-                if isinstance(n.slice, ast.Constant):
-                    stored.add(n.slice.value)
-                else:
-                    stored.add('*loop*')
+            if isinstance(n, ast.Subscript) and isinstance(
+                    n.ctx, ast.Store) and has(F.atoms(n.value, load),
+                                              "['data']"):
+                kk = F.flow.const_keys(n.slice, load)
+                stored |= set(kk or ['*loop*'])
     for key in ('extra_args', 'library_mode', 'mopack', 'compdb', 'toolchain',
                 'host_platform', 'target_platform', 'bfgdir',
                 'backend_version'):
@@ -232,8 +228,10 @@ def mutators(ctx):
     R = 'MUTATORS'
     ctx.rule(R, 'EnvVarDict overrides every mutating method of dict and each '
              'override records the change (writes self.changes[...] or '
-             'delegates to an override that does)')
+             'delegates to an override that does); reset() always restores '
+             'the initial mapping')
     repo = ctx.repo
+    F = _facts(ctx)
     ci = repo.cls(ENV + 'EnvVarDict')
     records = {}
     for name in DICT_MUTATORS:
@@ -245,25 +243,30 @@ def mutators(ctx):
                        name, name))
             continue
         ctx.ob(R, 'EnvVarDict.' + name + '|overridden', True, fn, '')
-        direct = any(isinstance(n, ast.Subscript) and unparse(n.value) in (
-            'self.changes', 'self._changes') and isinstance(n.ctx, ast.Store)
-            for n in ast.walk(fn))
+        fi = fn._func
+        direct_ = any(has(t, 'self', '_changes') or has(t, 'self', 'changes')
+                      for t, v, n in F.stores(fi))
         deleg = set()
-        for n in ast.walk(fn):
-            if isinstance(n, ast.Subscript) and unparse(n.value) == 'self' \
-                    and isinstance(n.ctx, ast.Store):
-                deleg.add('__setitem__')
-            if isinstance(n, ast.Delete):
-                for t in n.targets:
-                    if isinstance(t, ast.Subscript) and unparse(
-                            t.value) == 'self':
-                        deleg.add('__delitem__')
-            if isinstance(n, ast.Call) and isinstance(
-                    n.func, ast.Attribute) and unparse(
-                        n.func.value) == 'self' and \
-                    n.func.attr in DICT_MUTATORS:
-                deleg.add(n.func.attr)
-        records[name] = (direct, deleg)
+        for g in F.reach(fi, 1):
+            if g.cls is not ci and g is not fi:
+                continue
+            for n in ast.walk(g.node):
+                if isinstance(n, ast.Subscript) and isinstance(
+                        n.value, ast.Name) and n.value.id == 'self' and \
+                        isinstance(n.ctx, ast.Store):
+                    deleg.add('__setitem__')
+                if isinstance(n, ast.Subscript) and isinstance(
+                        n.value, ast.Name) and n.value.id == 'self' and \
+                        isinstance(n.ctx, ast.Del):
+                    deleg.add('__delitem__')
+                if isinstance(n, ast.Call) and isinstance(
+                        n.func, ast.Attribute) and isinstance(
+                            n.func.value, ast.Name) and \
+                        n.func.value.id == 'self' and \
+                        n.func.attr in DICT_MUTATORS:
+                    deleg.add(n.func.attr)
+        deleg.discard(name)
+        records[name] = (direct_, deleg)
     changed = True
     good = {n for n, (d, _) in records.items() if d}
     while changed:
@@ -276,36 +279,54 @@ def mutators(ctx):
         ctx.ob(R, 'EnvVarDict.' + n + '|records-change', n in good,
                ci.methods[n], 'EnvVarDict.{} mutates the mapping without '
                'recording the change'.format(n))
-    # __setitem__ type check
     fn = ci.methods.get('__setitem__')
     if fn is not None:
-        ok = any(isinstance(n, ast.If) and 'isinstance(key, str)' in unparse(
-            n.test) and 'isinstance(value, str)' in unparse(n.test) and any(
-                isinstance(s, ast.Raise) for s in n.body)
-            for n in ast.walk(fn))
+        fi = fn._func
+        ok = False
+        for n in walk_no_nested(fn):
+            if isinstance(n, ast.Raise):
+                c = F.control(n, fi)
+                if param_of(c, Q.params(fn)[1]) and param_of(
+                        c, Q.params(fn)[2]) and has_call(c, 'isinstance'):
+                    ok = True
         ctx.ob(R, 'EnvVarDict.__setitem__|str-check', ok, fn,
                'non-string keys/values are accepted')
-    # reset restores the initial mapping
+        recs = [n for t, v, n in F.stores(fi)
+                if has(t, 'self', 'changes') or has(t, 'self', '_changes')]
+        ok = bool(recs) and all(
+            all(has_call(F.atoms(t, fi), 'isinstance')
+                for t in F.guards(n, fi)) for n in recs)
+        ctx.ob(R, 'EnvVarDict.__setitem__|records-every-assignment', ok, fn,
+               'an assignment is recorded in `changes` only under a '
+               'condition: the variables a toolchain file or script sets '
+               'are not all forwarded/saved')
     fn = ci.methods.get('reset')
     Q.require(fn is not None, 'EnvVarDict.reset missing')
-    t = unparse(fn)
-    ok = 'super().clear()' in t and 'super().update(self.initial)' in t and \
-        'self._changes = {}' in t
-    ctx.ob(R, 'EnvVarDict.reset|restores-initial', ok, fn,
+    fi = fn._func
+
+    def sup(name, argpat=None):
+        def pred(e):
+            return e.name == name and any('super()' in h
+                                          for h in e.heads()) and (
+                argpat is None or has(e.all_args(), *argpat))
+        return pred
+    cleared = F.effects(fi, sup('clear'), depth=1)
+    updated = F.effects(fi, sup('update', ('self', 'initial')), depth=1)
+    ch = any(has(t, 'self', '_changes') and any(
+        a.startswith('alloc:') for a in v) for t, v, n in F.stores(fi))
+    ctx.ob(R, 'EnvVarDict.reset|restores-initial',
+           bool(cleared) and bool(updated) and ch, fn,
            'reset() does not restore exactly the initial variables')
-    # ... on every path (a from_json'd dict has no _changes attribute yet)
-    from ..cfg import EXIT, build as build_cfg
-    g = build_cfg(fn)
-    for want in ('super().clear()', 'super().update(self.initial)'):
-        st = [g.stmt_of(c) for c in Q.calls(fn, nested=False)
-              if unparse(c) == want]
-        ctx.ob(R, 'EnvVarDict.reset|always|' + want,
-               bool(st) and g.must_pass(st, EXIT), fn,
+    for want, pred in (('super().clear()', sup('clear')),
+                       ('super().update(self.initial)',
+                        sup('update', ('self', 'initial')))):
+        ctx.ob(R, 'EnvVarDict.reset|always|' + want, F.must(fi, pred), fn,
                'reset() can return without {}: variables loaded from the '
                'saved configuration keep the toolchain\'s modifications and '
                'the toolchain file is replayed on top of them'.format(want))
     fn = ci.methods.get('__init__')
-    ok = 'self.initial = dict(self)' in unparse(fn)
+    ok = any(has(t, 'self', 'initial') and isinstance(n, ast.Assign) and
+             isinstance(n.value, ast.Call) for t, v, n in F.stores(fn._func))
     ctx.ob(R, 'EnvVarDict.__init__|initial-is-a-copy', ok, fn,
            '`initial` aliases the live mapping')
 
@@ -383,6 +404,35 @@ def _env_default_functions(repo):
     return out
 
 
+def _allowed_via_callers(repo, fn, what, _depth=0):
+    """A read inside a *private* helper is covered by the allow-list entry
+    of its callers when every caller (transitively through private
+    helpers) has one for the same kind of read. Returns the covering key."""
+    if fn is None or _depth > 3:
+        return None
+    name = fn.node.name
+    if not name.startswith('_') or name.startswith('__') and \
+            name.endswith('__'):
+        return None
+    callers = Q.find_callers(repo, fn, by_name_ok=False)
+    if not callers:
+        return None
+    first = None
+    for m, c, exact in callers:
+        cf = repo.enclosing_func(c)
+        if cf is None:
+            return None
+        key = '{}|{}'.format(cf.fq, what)
+        if key in AMBIENT_ALLOW:
+            first = first or key
+            continue
+        sub = _allowed_via_callers(repo, cf, what, _depth + 1)
+        if not sub:
+            return None
+        first = first or sub
+    return first
+
+
 def ambient(ctx):
     R = 'AMBIENT'
     ctx.rule(R, 'every read of ambient process state (os.environ, os.getenv, '
@@ -428,9 +478,14 @@ def ambient(ctx):
                 # any helper of BasePath may ask for the cwd: used only to
                 # absolutise command-line paths
                 key = 'bfg9000.platforms.basepath:BasePath.abspath|os.getcwd'
+            via = _allowed_via_callers(repo, repo.enclosing_func(node),
+                                       what)
             if key in AMBIENT_ALLOW:
                 ctx.ob(R, key, True, node, 'allow-listed: ' +
                        AMBIENT_ALLOW[key])
+            elif via:
+                ctx.ob(R, via, True, node, 'allow-listed: private helper '
+                       'called only from ' + via)
             else:
                 ctx.ob(R, key, False, node,
                        'ambient process state ({}) is read outside the '
@@ -479,16 +534,23 @@ def ambient(ctx):
             key = '{}|default-env:{}'.format(where(c, m), name)
             if passed:
                 a = Q.arg(c, idx, pname)
-                at = unparse(a) if a is not None else '*args'
-                ok = ('variables' in at or at in ('env', '*args') or
-                      'environ' in at)
-                ctx.ob(R, key + '|' + unparse(c)[:60], ok, c,
-                       'environment argument {} is not derived from the '
-                       'saved variables'.format(at))
+                ok = a is None
+                if a is not None and fn is not None:
+                    at = _facts(ctx).atoms(a, fn)
+                    ok = has(at, 'variables') or has(at, 'environ') or \
+                        any(x.startswith(('param:', 'via:param:'))
+                            for x in at) or has(at, 'initial')
+                ctx.ob(R, key + '|passes-saved-variables', ok, c,
+                       'the environment argument is not derived from the '
+                       'saved variables')
             elif key in AMBIENT_ALLOW:
                 ctx.ob(R, key, True, c, 'allow-listed: ' + AMBIENT_ALLOW[key])
+            elif _allowed_via_callers(repo, fn, 'default-env:' + name):
+                ctx.ob(R, _allowed_via_callers(
+                    repo, fn, 'default-env:' + name), True, c,
+                    'allow-listed: private helper of an allow-listed caller')
             else:
-                ctx.ob(R, key + '|' + unparse(c)[:60], False, c,
+                ctx.ob(R, key + '|relies-on-ambient-default', False, c,
                        '{}(...) is called without an environment: it '
                        'searches the ambient PATH instead of the saved one'
                        .format(name))
@@ -524,58 +586,43 @@ def nullable_roundtrip(ctx):
              'that can produce None; str(x)/T(x) applied unconditionally to '
              'a nullable is reported')
     repo = ctx.repo
-    save = repo.method(ENV + 'Environment', 'save')
-    load = repo.method(ENV + 'Environment', 'load')
-    init = repo.method(ENV + 'Environment', '__init__')
+    F = _facts(ctx)
+    fl = F.flow
+    save = F.fn(ENV + 'Environment.save')
+    load = F.fn(ENV + 'Environment.load')
+    init = F.fn(ENV + 'Environment.__init__')
     nullable = {}
-    # parameters of __init__ fed by callers with may-return-None calls
     for m, c, exact in Q.find_callers(repo, init, by_name_ok=False):
         for kw in c.keywords:
             if kw.arg and _may_be_none(repo, m, kw.value):
                 nullable[kw.arg] = unparse(kw.value)
-    for n in ast.walk(init.node):
-        if isinstance(n, ast.Assign) and isinstance(n.value, ast.Call) and \
-                unparse(n.value.func).startswith('try_'):
-            for t in n.targets:
-                if isinstance(t, ast.Attribute):
-                    nullable[t.attr] = unparse(n.value)
+    for attr, v in _attrs_stored(F, init, lambda b: b == 'self').items():
+        if any(a.startswith('try_') for a in direct(v)) or \
+                'const:None' in v and attr in Q.params(init.node):
+            nullable.setdefault(attr, 'may be None in __init__')
     ctx.stat('nullable_environment_fields', nullable)
-    data_dict = None
-    for n in ast.walk(save.node):
-        if isinstance(n, ast.Dict):
-            for k, v in zip(n.keys, n.values):
-                if isinstance(k, ast.Constant) and k.value == 'data' and \
-                        isinstance(v, ast.Dict):
-                    data_dict = v
-    saved = {k.value: v for k, v in zip(data_dict.keys, data_dict.values)
-             if isinstance(k, ast.Constant)}
-    for k, v in sorted(saved.items()):
+    top = _dumped_record(F, save)
+    saved = fl.subrecord(top, 'data') if top else None
+    Q.require(saved is not None, 'Environment.save: data record not found')
+    restored = _attrs_stored(F, load, lambda base: '__new__(' in base)
+    TOTAL = ('str(', 'repr(', 'int(', 'bool(', 'list(')
+    for k in sorted(saved):
         if k not in nullable:
             continue
-        total_conv = isinstance(v, ast.Call) and isinstance(
-            v.func, ast.Name) and v.func.id in ('str', 'repr', 'int',
-                                               'bool', 'list')
-        ctx.ob(R, 'Environment.save|' + k, not total_conv, v,
-               '{} can be None ({}) but is saved as {}: None becomes the '
-               'string \'None\''.format(k, nullable[k], unparse(v)))
-        # load side
-        asg = [n for n in ast.walk(load.node) if isinstance(n, ast.Assign)
-               and unparse(n.targets[0]) == 'env.' + k]
-        if asg:
-            val = asg[0].value
-            uncond = isinstance(val, ast.Call) and not unparse(
-                val.func).startswith('try_') and not isinstance(
-                    val, ast.IfExp)
-            if isinstance(val, ast.Call) and isinstance(
-                    val.func, ast.Attribute) and \
-                    val.func.attr == 'as_directory':
-                uncond = False    # crashes loudly on None; not silent
-            ctx.ob(R, 'Environment.load|' + k,
-                   not (uncond and total_conv or
-                        (uncond and isinstance(val.func, ast.Name) and
-                         val.func.id[:1].isupper())), val,
+        d = direct(fl.rec_atoms(saved, k))
+        total_conv = any(a.startswith(TOTAL) for a in d) and \
+            'const:None' not in d
+        ctx.ob(R, 'Environment.save|' + k, not total_conv, save.node,
+               '{} can be None ({}) but is saved through a total '
+               'conversion: None becomes the string \'None\''.format(
+                   k, nullable[k]))
+        if k in restored:
+            d = direct(restored[k])
+            ctor = [a for a in d if re.match(r'^[A-Z][A-Za-z]*\(', a)]
+            ok = not ctor or 'const:None' in restored[k]
+            ctx.ob(R, 'Environment.load|' + k, ok, load.node,
                    '{} can be None but load applies {} unconditionally: '
-                   'None cannot be restored'.format(k, unparse(val)))
+                   'None cannot be restored'.format(k, ctor))
 
 
 def _may_be_none(repo, m, e):
@@ -608,26 +655,19 @@ def ctor_bypass(ctx):
     ctx.rule(R, 'a from_json that bypasses __init__ through cls.__new__ '
              'assigns the same attribute set as __init__')
     repo = ctx.repo
+    F = _facts(ctx)
     n = 0
     for ci in sorted(repo.classes.values(), key=lambda c: c.fq):
         fj = ci.methods.get('from_json')
         init = ci.methods.get('__init__')
         if fj is None or init is None:
             continue
-        news = [c for c in Q.calls(fj) if unparse(c.func) == 'cls.__new__']
-        if not news:
-            continue
-        var = None
-        for a in ast.walk(fj):
-            if isinstance(a, ast.Assign) and a.value in news:
-                var = unparse(a.targets[0])
-        if var is None:
+        if not any(isinstance(c.func, ast.Attribute) and
+                   c.func.attr == '__new__' for c in Q.calls(fj)):
             continue
         n += 1
-        a1 = {a for a in _self_attrs_assigned(init)}
-        a2 = _self_attrs_assigned(fj, var)
-        # EnvVarDict: _changes is recomputed lazily by the `changes`
-        # property when missing (hasattr test) -- checked here
+        a1 = set(_attrs_stored(F, init._func, lambda b: b == 'self'))
+        a2 = set(_attrs_stored(F, fj._func, lambda b: '__new__(' in b))
         lazy = set()
         for pname, p in ci.methods.items():
             for t in ast.walk(p):
@@ -639,7 +679,8 @@ def ctor_bypass(ctx):
         ctx.ob(R, ci.fq + '|from_json-assigns-all', not missing, fj,
                'from_json bypasses __init__ but does not set {}'.format(
                    sorted(missing)))
-    ctx.require_min(R, n, 3, 'constructor-bypassing from_json methods')
+    ctx.ob(R, 'ctor-bypassing-from_json|found', n >= 3, None,
+           'only {} constructor-bypassing from_json methods found'.format(n))
 
 
 def load_only(ctx):
@@ -651,91 +692,126 @@ def load_only(ctx):
              'when regenerating; project arguments are re-parsed from the '
              'saved extra_args')
     repo = ctx.repo
+    F = _facts(ctx)
     D = 'bfg9000.driver:'
-    for fn in ('regenerate', 'env', 'run'):
-        f = repo.func(D + fn)
-        vals = [unparse(v) for v in Q.local_assignments(f.node, 'env')
-                if v is not None]
-        ok = vals == ['Environment.load(args.builddir.string())']
-        ctx.ob(R, fn + '|env-from-load', ok, f.node,
-               '{} builds its environment from {}'.format(fn, vals))
-        bad = [c for c in Q.calls(f.node) if unparse(c.func) in (
-            'Environment', 'environment_from_args', 'finalize_environment')]
-        ctx.ob(R, fn + '|no-fresh-environment', not bad, f.node,
-               '{} constructs/finalizes a fresh Environment'.format(fn))
-    f = repo.func(D + 'regenerate')
-    lt = [c for c in Q.calls(f.node) if unparse(c.func) ==
-          'build.load_toolchain']
-    ok = len(lt) == 1 and [unparse(a) for a in lt[0].args] == [
-        'env', 'env.toolchain.path', 'args.regenerating']
+    LOADED = ('Environment', 'load()')
+    for name in ('regenerate', 'env', 'run'):
+        f = F.fn(D + name)
+        loads = [e for e in F.effects(f, lambda e: e.name == 'load',
+                                      depth=1)
+                 if any(h.endswith('Environment.load') for h in e.heads())]
+        ctx.ob(R, name + '|env-from-load', bool(loads), f.node,
+               '{} does not load the saved environment'.format(name))
+        bad = F.effects(f, lambda e: e.name in (
+            'Environment', 'environment_from_args', 'finalize_environment',
+            'finalize'), depth=2)
+        ctx.ob(R, name + '|no-fresh-environment', not bad, f.node,
+               '{} constructs/finalizes a fresh Environment'.format(name))
+        errs = [e for e in F.effects(f, lambda e: e.name == 'error',
+                                     depth=1)
+                if param_of(e.control(), 'extra')]
+        ctx.ob(R, name + '|rejects-extra-args', bool(errs), f.node,
+               'command-line arguments of a later invocation are accepted')
+    f = F.fn(D + 'regenerate')
+    lt = F.calls_to(f, 'load_toolchain', depth=1)
+    ok = bool(lt) and all(
+        has(e.arg(0), *LOADED) and has(e.arg(1), 'Environment', 'load()',
+                                       'toolchain', 'path') and
+        has(e.arg(2, kw='regenerating'), 'regenerating') for e in lt)
     ctx.ob(R, 'regenerate|toolchain-from-saved-env', ok, f.node,
            'regenerate does not replay the saved toolchain file with the '
            'regenerating flag')
-    cb = [c for c in Q.calls(f.node) if unparse(c.func) ==
-          'build.configure_build']
-    ok = len(cb) == 1 and unparse(cb[0].args[0]) == 'env'
-    ctx.ob(R, 'regenerate|configure_build(env)', ok, f.node, '')
-    ok = 'list_backends()[env.backend]' in unparse(f.node)
-    ctx.ob(R, 'regenerate|backend-from-saved-env', ok, f.node,
+    cb = F.calls_to(f, 'configure_build', depth=1)
+    ok = bool(cb) and all(has(e.arg(0), *LOADED) and has(
+        e.arg(1, kw='regenerating'), 'regenerating') for e in cb)
+    ctx.ob(R, 'regenerate|configure_build(env)', ok, f.node,
+           'the build is not configured from the saved environment')
+    allat = set()
+    for e in F.effects(f, lambda e: True, depth=0):
+        allat |= e.all_args() | e.heads() | e.control() | e.recv()
+    ctx.ob(R, 'regenerate|backend-from-saved-env',
+           has(allat, 'Environment', 'load()', 'backend'), f.node,
            'backend is not taken from the saved environment')
-    ok = 'env.compdb' in unparse(f.node)
-    ctx.ob(R, 'regenerate|compdb-from-saved-env', ok, f.node,
+    ctx.ob(R, 'regenerate|compdb-from-saved-env',
+           has(allat, 'Environment', 'load()', 'compdb'), f.node,
            'compdb switch is not taken from the saved environment')
-    # extra args on the regenerate command line are rejected
-    ok = any(isinstance(n, ast.If) and unparse(n.test) == 'extra' and any(
-        'subparser.error' in unparse(s) for s in n.body)
-        for n in walk_no_nested(f.node))
-    ctx.ob(R, 'regenerate|rejects-extra-args', ok, f.node,
-           'command-line arguments of a later invocation are accepted')
-    lt = repo.func('bfg9000.build:load_toolchain')
-    branch = [n for n in walk_no_nested(lt.node) if isinstance(n, ast.If) and
-              unparse(n.test) == 'regenerating']
-    ok = len(branch) == 1 and any(unparse(s) == 'env.reload()'
-                                  for s in branch[0].body) and any(
-        unparse(s) == 'env.toolchain.path = path' for s in branch[0].orelse)
+    lt = F.fn('bfg9000.build:load_toolchain')
+    rl = F.calls_to(lt, 'reload', depth=0)
+    ex = F.calls_to(lt, 'execute_file', depth=0)
+    ok = bool(rl) and all(
+        param_of(e.recv(), 'env') and any(
+            pos and param_of(F.atoms(t, e.fn), 'regenerating')
+            for t, pos in F.guards_pol(e.call, e.fn)) for e in rl)
+    setp = [n for t, v, n in F.stores(lt)
+            if has(t, 'toolchain', 'path') and param_of(v, 'path')]
+    ok = ok and bool(setp) and all(any(
+        not pos and param_of(F.atoms(t, lt), 'regenerating')
+        for t, pos in F.guards_pol(n, lt)) for n in setp)
     ctx.ob(R, 'load_toolchain|reload-when-regenerating', ok, lt.node,
            'variables are not reset to their initial values before the '
-           'toolchain file is replayed')
-    if branch:
-        ex = [c for c in Q.calls(lt.node) if unparse(c.func) ==
-              'execute_file']
-        ok = bool(ex) and ex[0].lineno > branch[0].lineno
-        ctx.ob(R, 'load_toolchain|reload-before-execute', ok, lt.node,
-               'toolchain file is executed before the reset')
-    rl = repo.method(ENV + 'Environment', 'reload')
-    ok = any(unparse(c) == 'self.variables.reset()' for c in Q.calls(rl.node))
-    ctx.ob(R, 'Environment.reload|resets-variables', ok, rl.node, '')
-    idf = repo.func('bfg9000.builtins.toolchain:install_dirs')
-    first = idf.node.body[0]
-    ok = isinstance(first, ast.If) and unparse(first.test) == \
-        'context.regenerating' and isinstance(first.body[0], ast.Return)
+           'toolchain file is replayed (or the saved toolchain path is '
+           'overwritten)')
+    g = F.cfg(lt)
+    ok = bool(rl) and bool(ex) and not any(
+        g.reaches(g.stmt_of(x.call), g.stmt_of(r.call))
+        for x in ex for r in rl)
+    ctx.ob(R, 'load_toolchain|reload-before-execute', ok, lt.node,
+           'toolchain file is executed before the reset')
+    rlm = F.fn(ENV + 'Environment.reload')
+    ok = any(has(e.recv(), 'self', 'variables')
+             for e in F.calls_to(rlm, 'reset', depth=1))
+    ctx.ob(R, 'Environment.reload|resets-variables', ok, rlm.node,
+           'reload() does not reset the variables')
+    idf = F.fn('bfg9000.builtins.toolchain:install_dirs')
+    muts = [n for t, v, n in F.stores(idf) if has(t, 'install_dirs')]
+
+    def any_regeneration(t):
+        # truthiness of the flag itself (or a comparison with `false`), not
+        # a test for one particular kind of regeneration
+        for c in ast.walk(t):
+            if isinstance(c, ast.Compare):
+                a = set()
+                for x in [c.left] + c.comparators:
+                    a |= F.atoms(x, idf)
+                if has(a, 'Regenerating') and not has(a, 'Regenerating',
+                                                      'false'):
+                    return False
+        return True
+    ok = bool(muts) and all(any(
+        not pos and has(F.atoms(t, idf), 'regenerating') and
+        any_regeneration(t)
+        for t, pos in F.guards_pol(n, idf)) for n in muts)
     ctx.ob(R, 'toolchain.install_dirs|noop-when-regenerating', ok, idf.node,
            'install_dirs of the toolchain file overrides the saved (possibly '
            'command-line) install directories on regeneration')
-    cb = repo.func('bfg9000.build:configure_build')
-    ok = any(unparse(c) == 'parser.parse_args(env.extra_args)'
-             for c in Q.calls(cb.node))
+    cb = F.fn('bfg9000.build:configure_build')
+    ok = any(has(e.arg(0), 'extra_args')
+             for e in F.calls_to(cb, 'parse_args', depth=1))
     ctx.ob(R, 'configure_build|parse_args(env.extra_args)', ok, cb.node,
            'project arguments are not re-parsed from the saved extra_args')
-    conf = repo.func(D + 'configure')
-    ok = any(unparse(c) == 'finalize_environment(env, args, extra)'
-             for c in Q.calls(conf.node))
-    fe = repo.func(D + 'finalize_environment')
-    ok = ok and 'extra_args=extra_args' in unparse(fe.node)
+    conf = F.fn(D + 'configure')
+    fe = F.fn(D + 'finalize_environment')
+    ok = any(param_of(e.all_args(), 'extra')
+             for e in F.calls_to(conf, 'finalize_environment', depth=0)) \
+        and any(param_of(e.arg(kw='extra_args'), 'extra_args')
+                for e in F.calls_to(fe, 'finalize', depth=0))
     ctx.ob(R, 'configure|extra-args-saved', ok, conf.node,
            'project arguments given at configure time are not saved')
-    # run uses saved variables
-    f = repo.func(D + 'run')
-    ok = any('env=variables' in unparse(c) for c in Q.calls(f.node)) and \
-        'env.variables.initial if args.initial else env.variables' in \
-        unparse(f.node)
+    f = F.fn(D + 'run')
+    runs = F.effects(f, lambda e: Q.kwarg(e.call, 'env') is not None,
+                     depth=1)
+    ok = bool(runs) and all(
+        has(e.arg(kw='env'), 'Environment', 'load()', 'variables') and
+        has(e.arg(kw='env'), 'Environment', 'load()', 'variables',
+            'initial')
+        and not has(e.arg(kw='env'), 'environ') for e in runs)
     ctx.ob(R, 'run|saved-variables', ok, f.node,
            '`bfg9000 run` does not run the command with the saved variables')
-    # execute() defaults to the saved variables
-    ex = repo.method(ENV + 'Environment', 'execute')
-    ok = any(isinstance(n, ast.If) and unparse(n.test) == 'env is None' and
-             any(unparse(s) == 'env = self.variables' for s in n.body)
-             for n in walk_no_nested(ex.node))
+    ex = F.fn(ENV + 'Environment.execute')
+    fwd = F.effects(ex, lambda e: Q.kwarg(e.call, 'env') is not None,
+                    depth=0)
+    ok = bool(fwd) and all(has(e.arg(kw='env'), 'self', 'variables')
+                           for e in fwd)
     ctx.ob(R, 'Environment.execute|default-env-is-saved', ok, ex.node,
            'tools are run with the ambient environment')
 
